@@ -34,6 +34,8 @@ type reinitStats struct {
 	ReinitCrashEffects, ReinitCrashRuns, LateForged, RogueProposals int
 	OutcomeHist                                                     map[string]int
 	Monitors, Notes, Samples                                        []string
+	// machines restarted after the re-initialisation, batches signed by restarted machines (reinitrestart.go)
+	ReinitRestarts, SignedAfterRestart int
 }
 
 type reinitRun struct {
@@ -415,6 +417,8 @@ func (r *reinitRun) scenario(outDir string, n, t int, interleave, junk, adapt, b
 			break
 		}
 	}
+	// … also after the re-initialised machines were stopped and started again (reinitrestart.go)
+	r.signsAfterRestart(b, round, groupKey, tag)
 	// single-field edits of the reinit file change the hash
 	r.hashEdits(re, tag)
 }
